@@ -10,6 +10,7 @@
 (* TreeADT invariants are evaluated on both recorded states.               *)
 (***************************************************************************)
 EXTENDS TreeADT, IOUtils, SequencesExt
+CONSTANT AbstractOnly    \* TRUE: recorded targets are compared as abstract forests only (clone names, _data keys, last-edited clone ignored)
 Edges == JsonDeserialize(IOEnv.TRACE_FILE)
 VARIABLES i, done
 tvars == <<cur, sub, mode, pend, act, i, done>>
@@ -24,7 +25,8 @@ TreeFromJ(j) ==
   IN [base EXCEPT !.rsig = [v \in nodes \cup {ROOT} |-> TrueSig(base, v)]]
 PendFromJ(j) == [p |-> j.p, D |-> ToSet(j.D)]
 Same(t, j) == LET u == TreeFromJ(j) IN
-   /\ t.nodes = u.nodes /\ t.par = u.par /\ t.dat = u.dat /\ t.outl = u.outl /\ t.last = u.last /\ t.dkeys = u.dkeys
+   IF AbstractOnly THEN AbsKey(t) = AbsKey(u)
+   ELSE /\ t.nodes = u.nodes /\ t.par = u.par /\ t.dat = u.dat /\ t.outl = u.outl /\ t.last = u.last /\ t.dkeys = u.dkeys
 TraceInit == /\ i \in 1..Len(Edges) /\ done = FALSE /\ act = NoAct
              /\ cur = TreeFromJ(Edges[i].src.cur) /\ sub = TreeFromJ(Edges[i].src.sub)
              /\ mode = Edges[i].src.mode /\ pend = PendFromJ(Edges[i].src.pend)
